@@ -72,6 +72,13 @@ func checkC08(c C08Case) *Violation {
 	if res.TimedOut || res.Crashed() {
 		return vio("write-crashed", "timeout=%v stderr=%s%s", res.TimedOut, res.Stderr, ctx)
 	}
+	if d.Flags.Track > 0xFFFF {
+		// the header counts tracks in 16 bits: a file with more chunks than it can declare is not an SMF, so only a refusal is left
+		if res.Exit == 0 {
+			return vio("track-count-beyond-header", "--track %d: exit 0 with %d bytes, but a header cannot declare more than 65535 tracks%s", d.Flags.Track, len(res.Stdout)+len(res.OutFile), clip(ctx, 600))
+		}
+		return nil
+	}
 	if res.Exit != 0 && beyondDelta(d) {
 		return nil // C08 speaks about successful writes only, and an SMF cannot hold such a duration
 	}
@@ -138,6 +145,10 @@ func TestC08(t *testing.T) {
 				d.Insts = append(d.Insts, Inst{Values: []Frac{{150000, 1}}}, Inst{Values: []Frac{{150000, 1}}}, Inst{Chord: &ChordSpec{Deg: IV{1, 2}, Sym: "m"}, Values: []Frac{{1, 1}}})
 			}
 			huge = true
+		}
+		if len(d.Insts) <= 6 && coin(t, "track-count-at-the-header-limit", 2) {
+			d.Flags.Track = rapid.SampledFrom([]int{65535, 65536, 65537, 100000, 131072}).Draw(t, "many-tracks")
+			r.Class("track-count-around-65535", 1)
 		}
 		c := C08Case{Doc: d, UseFile: coin(t, "use-file", 30), Huge: huge, Debug: len(d.Insts) <= 40 && coin(t, "debug", 10)}
 		c.Stale = c.UseFile && rapid.Bool().Draw(t, "stale-output-file")
